@@ -69,7 +69,13 @@ var ghostVars = []GhostVar{
 	{"alloc", SInt, "alloc"},
 	{"chanClosed", SInt, "chan"}, {"evOpen", SBool, "chan"}, {"evNext", SInt, "chan"}, {"evCur", SInt, "chan"}, {"evCount", SInt, "chan"},
 	{"msClosed", SInt, "chan"}, {"msSent", SInt, "chan"}, {"rxDone", SInt, "chan"},
-	{"exitCode", SInt, "os"}, {"stdout", SString, "os"}, {"fsContent", SString, "os"}, {"fsExists", SBool, "os"}, {"fsWritable", SBool, "os"}, {"fOffset", SInt, "os"}, {"fOpen", SBool, "os"}, {"fAppend", SBool, "os"}, {"fWr", SBool, "os"},
+	{"exitCode", SInt, "exit"}, {"stdout", SString, "stdout"}, {"fsContent", SString, "fs"}, {"fsExists", SBool, "fs"}, {"fsWritable", SBool, "const"}, {"fOffset", SInt, "fs"}, {"fAppend", SBool, "fs"}, {"fWr", SBool, "fs"},
+}
+
+type deferred struct {
+	call  *ast.CallExpr
+	args  []Term
+	regPC Term
 }
 
 type loopCtx struct {
@@ -110,6 +116,8 @@ type Exec struct {
 	callOrd map[string]int
 	ifaceClauses []*Clause // interface-contract ensures checked against this implementation
 	ifaceRecv string
+	deferred []*deferred
+	preArgs  []Term
 	preludeSyms   map[string]bool
 	preludeConsts map[string]*Sort
 	preludeAxioms []PreludeItem
